@@ -12,4 +12,8 @@ NoInit == <<>>
 Keys4 == <<2, 3, 4, 2>>
 InitAB == <<0, 0, 3>>
 ID == (1 :> << <<"ins", 2, 1>> >>) @@ (2 :> << <<"ins", 3, 2>>, <<"ins", 2, 4>>, <<"era", 3>> >>)
+\* seeded change C18b: an erased node E in front of C (key 4); T1 inserts key 2 (re-uses E after the early check), T2 inserts key 4' (id 2, key 3) into E,
+\* key 2' before it and erases key 3
+IE == (1 :> << <<"ins", 2, 1>> >>) @@ (2 :> << <<"ins", 3, 2>>, <<"ins", 2, 4>>, <<"era", 3>> >>)
+InitE == <<0, 3>>
 ====
